@@ -54,6 +54,12 @@ func runSubsys(sc subsysCfg, tier string) int {
 		w0, _ := world.New(params)
 		monitor := sc.newMon(w0)
 		cfg := drive.Cfg{Tag: sc.id, Seed: hseed, Blocks: blocks, Params: params, Scripts: sc.scripts, Scout: true, Jumps: sc.jumps, Absents: sc.absents, Honest: true}
+		if i%2 == 1 {
+			// every second history has a byzantine proposer that also includes most of what its mempool
+			// check refused: rules enforced on the check path only would show on the delivered path
+			cfg.Byzantine = 60
+			r.Count("histories_with_byzantine_proposer", 1)
+		}
 		rrng := rand.New(rand.NewSource(hseed * 5))
 		if sc.restarts {
 			cfg.Specs = []world.NodeSpec{{Name: "lead", Validator: w0.Vals[0], LogLevel: 1}, {Name: "restarter", Validator: w0.Vals[0], LogLevel: 1}}
@@ -72,6 +78,9 @@ func runSubsys(sc subsysCfg, tier string) int {
 			}
 			r.Case(fmt.Sprintf("%d/%d/%s", hseed, blk.H, blk.Commit.AppHash), nt)
 			for _, t := range blk.Txs {
+				if t.Meta["byzantine"] != "" {
+					r.Count("refused_by_check_but_delivered", 1)
+				}
 				if t.Call.Code == 0 {
 					r.Count("ok:"+t.Kind, 1)
 				} else {
